@@ -42,7 +42,7 @@ def main():
             "guard": "--cfg compass_verif",
             "enable": "RUSTFLAGS=\"--cfg compass_verif\" cargo build --release --offline (the harness crate /verif/harness builds /repo/rust/* as path dependencies with this flag)",
             "baseline_off_cmd": "cd /repo/rust && cargo test --workspace --no-fail-fast --offline",
-            "source_commits": [],
+            "source_commits": ["2eb83aa", "3e25d7b"],
             "add_only": True,
         },
         "engines": [{"name": "rocq-proof+correspondence", "path": "/verif/coq, /verif/harness, /verif/lib/vf.py",
